@@ -35,8 +35,8 @@ MM_CHK_TRAILING = "0"   # precondition: no data after the announced entries     
 MM_CHK_RANGE = "0"      # precondition row_beg <= row_end                            (mm.hpp:163, 271)
 BIN_CHECKED = "0"       # ptr validated (front >= 0, non-decreasing, back <= nnz), row_beg <= row_end (binary.hpp:88-103)
 MODEL_ENV = {"C19_FLAGS": MM_CHK_INDEX + MM_CHK_TRAILING + MM_CHK_RANGE + BIN_CHECKED}
-IMPL_ENV = {"OMP_NUM_THREADS": "1", "UBSAN_OPTIONS": "print_stacktrace=1",
-            "ASAN_OPTIONS": "detect_leaks=0:allocator_may_return_null=1"}
+IMPL_ENV = {"OMP_NUM_THREADS": "1", "UBSAN_OPTIONS": "print_stacktrace=1:symbolize=0",
+            "ASAN_OPTIONS": "detect_leaks=0:allocator_may_return_null=1:symbolize=0"}
 
 ASSUMPTIONS = [
     "text<->number conversion of VALUES is an oracle in the Coq model (vread (vprint v ++ rest) = Some (v, rest)); "
@@ -193,6 +193,25 @@ def show_rows(n, m, rows):
     return "OK %d %d" % (n, m) + "".join(" |" + "".join(" %d:%s" % e for e in rw) for rw in rows)
 
 
+# the witnesses of the refutation theorems of Properties_C19.v, replayed on the real code every run
+def witness_lines():
+    B = b"%%MatrixMarket matrix coordinate real general\n"
+    def binfile(n, ptr, col, vals):
+        return struct.pack("<q", n) + b"".join(struct.pack("<q", p) for p in ptr) + b"".join(struct.pack("<q", c) for c in col) + \
+               b"".join(struct.pack("<d", v) for v in vals)
+    return [
+        "W1 mm.read.d -1 -1 " + hexs(B + b"3 3 3\n1 1 1.0\n2 9 2.0\n3 3 3.0\n"),       # C19_mm_read_safe_refuted
+        "W2 mm.read.d -1 -1 " + hexs(B + b"3 3 3\n1 1 1.0\n9 2 2.0\n3 3 3.0\n"),       # C19_mm_read_row_dropped_refuted
+        "W3 mm.read.d 2 -1 " + hexs(B + b"1 1 0\n"),                                     # C19_mm_read_range_oob_refuted
+        "W7 mm.read.d 4 -1 " + hexs(B + b"3 3 1\n1 1 1.0\n"),                          # C19_mm_read_range_oob_refuted
+        "W8 mm.read.d -1 -1 " + hexs(B + b"-1 1 0\n"),                                   # C19_mm_read_negative_n_oob_refuted
+        "W9 mm.readd.d -1 -1 " + hexs(b"%%MatrixMarket matrix array real general\n-3 -2\n"),   # C19_mm_readd_safe_refuted
+        "W4 bin.read.d.u -1 -1 " + hexs(binfile(3, [0, 1000, 2, 3], [0, 1, 2], [1.0, 2.0, 3.0])),   # C19_bin_read_safe_refuted
+        "W5 bin.read.d.u -1 -1 " + hexs(binfile(3, [0, 2, 1, 3], [0, 1, 2], [1.0, 2.0, 3.0])),      # C19_bin_read_invalid_refuted
+        "W6 bin.read.d.s 2 -1 " + hexs(binfile(1, [0, 1], [0], [1.0])),                              # C19_bin_read_range_oob_refuted
+    ]
+
+
 # ------------------------------------------------------------------ running
 def run_lines(ctx, which, lines, env, shards=16):
     exe = ctx["model"] if which == "model" else ctx["cpp"][which]
@@ -251,6 +270,13 @@ def evaluate_reads(ctx, recs):
                 cid = "k%d" % k; clines.append("%s mm.classify %s" % (cid, line.split(" ")[4])); cback[cid] = k
             elif rc["fmt"] == "bin":
                 oid = "o%d" % k; olines.append("%s o.wfflat -1 %s" % (oid, impl)); oback[oid] = k
+            elif rc["fmt"] == "mmd":
+                # dense result: rows x cols values (the reader returns the chunk's row count)
+                mo = re.match(r"OK (\d+) (\d+) \[(.*)\]$", impl)
+                if not mo or int(mo.group(1)) * int(mo.group(2)) != len(mo.group(3).split()):
+                    fails.append(fail(line, impl, model, "C19 safety (A5): the dense reader returned an array whose size is not rows*cols",
+                                      why="invalid-dense", fmt="mmd", must=None))
+                    continue
         if model is not None and model != "NA" and not same(impl, model):
             ctx["stats"]["mismatches"] += 1
             fails.append(fail(line, impl, model, "correspondence drv_fileio (%s) vs MMFormat.v/BinFormat.v reader model" % op,
@@ -462,6 +488,7 @@ def run_all(ctx, tier, seed, env):
                                          (KIND[t].encode(), b"pattern"), (b"symmetric" if sym else b"general", b"hermitian")]):
             cid = "hb%d_%d" % (k, vi)
             rl.append("%s mm.read.%s -1 -1 %s" % (cid, t, hexs(data.replace(old, new, 1)))); expect[cid] = "EXC error"
+    rl += witness_lines()
     impl2 = run_lines(ctx, "fileio", rl, env); model2 = run_lines(ctx, "model", rl, MODEL_ENV)
     recs = []
     for l in rl:
@@ -616,7 +643,9 @@ def classify(f):
     reader = "mm" if op.startswith("mm.") else ("binary" if op.startswith("bin.") else "?")
     if op == "mm.rtd.c":
         return {"writer": "mm", "defect": "char-written-as-character"}
-    if is_crash(impl) and NULL_UB in impl and ("@amgcl/io/" in impl):
+    if reader == "mm" and is_crash(impl) and "signed_integer_overflow" in impl and re.search(r"@amgcl/io/mm\.hpp:(188|189)\b", impl):
+        return {"reader": "mm", "defect": "index-decrement-overflow"}
+    if is_crash(impl) and NULL_UB in impl:
         m = re.search(r"@(amgcl/[\w/\.]+:\d+)", impl)
         return {"reader": reader, "defect": "element-address-of-empty-vector", "site": m.group(1) if m else "?"}
     if fmt_of_op(op) in ("mm", "mmd", "bin", "bind") and _range_unordered(line) and (is_crash(impl) or why in ("invalid", "crash")):
@@ -624,6 +653,14 @@ def classify(f):
     if reader == "binary" and fmt_of_op(op) == "bin" and _ptr_invalid(line) and (why in ("crash", "invalid") or
             (why == "model-mismatch" and f.get("model") == "OOB")):
         return {"reader": "binary", "defect": "ptr-not-validated"}
+    if reader == "mm" and why == "invalid-dense":
+        tk = line.split(" ")
+        try:
+            body = [l for l in unhex(tk[4]).split(b"\n")[1:] if not l.startswith(b"%")]
+            mo = re.match(rb"\s*([+-]?\d+)\s+([+-]?\d+)", body[0])
+            if int(mo.group(1)) < 0 and int(mo.group(2)) < 0: return {"reader": "mm", "defect": "negative-sizes-accepted"}
+        except Exception:
+            pass
     if reader == "mm" and why == "invalid" and "col-out-of-range" in str(f.get("oracle")):
         return {"reader": "mm", "defect": "col-out-of-range-accepted"}
     if reader == "mm" and why == "inconsistent":
